@@ -1,4 +1,5 @@
 pub mod c11;
+pub mod natcat;
 pub mod sem;
 
 pub fn dispatch(mode: &str, engine: &str, rest: &[String]) -> anyhow::Result<()> {
@@ -12,6 +13,8 @@ pub fn dispatch(mode: &str, engine: &str, rest: &[String]) -> anyhow::Result<()>
         ("replay", "lim") => sem::replay_limits(rest),
         ("record", "gcprog") => sem::record_gcprog(rest),
         ("replay", "gc") => sem::replay_gc(rest),
+        ("record", "sess") => sem::record_sessions(rest),
+        ("record", "natcat") => natcat::record(rest),
         _ => anyhow::bail!("unknown mode/engine {} {}", mode, engine),
     }
 }
